@@ -218,13 +218,22 @@ def summarise(prop, tier, seed, eng, recs, bad, t0, tmpdir, a):
             for s_ in todo
         }
     minimised = {s_: f.result() for s_, f in futs.items()}
+    # one KNOWN-FINDING line per listed finding of this property, whether or not
+    # this run happened to hit it (they may need a rare schedule)
+    by_finding = {}
+    for sig, f in known.items():
+        by_finding.setdefault(f.get("finding", sig), []).append(sig)
+    for fid in sorted(by_finding):
+        sigs_ = sorted(by_finding[fid])
+        seen = {s_: len(by_sig[s_]) for s_ in sigs_ if s_ in by_sig}
+        what = min((known[s_]["what"] for s_ in sigs_), key=len)
+        lines.append(
+            f"KNOWN-FINDING: property={prop} {fid}: {what[:600]} [signatures: {', '.join(sigs_)}; "
+            f"observed in this run: {seen if seen else 'no'}]"
+        )
     for sig in sorted(by_sig):
         hits = by_sig[sig]
         if sig in known:
-            lines.append(
-                f"KNOWN-FINDING: property={prop} {sig} — {known[sig]['what']} "
-                f"({len(hits)} runs, e.g. run {hits[0][0]['i']})"
-            )
             continue
         nviol += 1
         r, v = hits[0]
